@@ -1,14 +1,15 @@
-"""Citation-kind alphabet: 25 letters, each a snippet from which the real extractor builds the object."""
+"""Citation-kind alphabet: 29 letters, each a snippet from which the real extractor builds the object."""
 
 ALPHA = [
     # name, snippet, class name, index among citations of that class in the snippet
     ("FA", "Alpha v. Beta, 10 U.S. 100 (1999).", "FullCaseCitation", 0),
     ("FA2", "Alpha v. Beta, 10 U. S. 100, 105 (1999) (same case, variant spelling).", "FullCaseCitation", 0),
-    ("FA0", "See 10 U.S. 100 (1999).", "FullCaseCitation", 0),  # case A again, cited without party names
+    ("FA0", "See 10 U.S., 100 (1999).", "FullCaseCitation", 0),  # case A again, without party names and in the comma form
     ("FB", "Gamma v. Delta, 10 U.S. 200 (2001).", "FullCaseCitation", 0),  # same reporter+volume as A
     ("FC", "Alpha v. Omega, 30 F.2d 300 (1950).", "FullCaseCitation", 0),  # shares a party name with A
     ("FP", "Sigma v. Tau, 585 U.S. ___ (2018).", "FullCaseCitation", 0),  # placeholder page
     ("FH", "Eta v. Theta, 10 Hill 100.", "FullCaseCitation", 0),  # ambiguous reporter string (several 'Hill' reporters), no year
+    ("FO", "O'Brien v. D'Arcy, 40 F.3d 400 (1995).", "FullCaseCitation", 0),  # party names that punctuation stripping changes
     ("LAW", "Mass. Gen. Laws ch. 1, § 2.", "FullLawCitation", 0),
     ("JRN", "1 Minn. L. Rev. 1.", "FullJournalCitation", 0),
     ("JP", "1 Minn. L. Rev. ___.", "FullJournalCitation", 0),  # journal with a placeholder page
@@ -18,10 +19,13 @@ ALPHA = [
     ("S_for", "77 F.3d at 5.", "ShortCaseCitation", 0),  # foreign
     ("S_Cr", "10 Cranch, at 55.", "ShortCaseCitation", 0),  # another ambiguous reporter string, same volume as FH
     ("S_P", "585 U.S., at 5.", "ShortCaseCitation", 0),  # short form of the placeholder-page case P
+    ("S_far", "30 F.2d, at 900.", "ShortCaseCitation", 0),  # short form of C whose own page is far beyond C's first page
     ("SU_B", "Delta, supra, at 201.", "SupraCitation", 0),  # unique name -> B
     ("SU_amb", "Alpha, supra, at 5.", "SupraCitation", 0),  # A and C share Alpha
     ("SU_unk", "Zeta, supra.", "SupraCitation", 0),
     ("REF_B", "Gamma v. Delta, 10 U.S. 200 (2001). In Gamma at 201 we see.", "ReferenceCitation", 0),
+    ("REF_O", "O'Brien v. D'Arcy, 40 F.3d 400 (1995). In O'Brien at 405 we see.", "ReferenceCitation", 0),
+    ("SU_O", "D'Arcy, supra, at 402.", "SupraCitation", 0),
     ("ID", "Id.", "IdCitation", 0),
     ("ID_ok", "Id. at 101.", "IdCitation", 0),
     ("ID_far", "Id. at 999.", "IdCitation", 0),
